@@ -566,6 +566,10 @@ pub fn dbg_app2(s: &mut Src, sh: &RnShape) {
 /// them, C06 per-Ready clauses - is forgotten), nothing at or below commit is altered, apply
 /// resumes right after the configured applied index, and no Ready is pending.
 pub fn restart(s: &mut Src, base: u64, n: usize, commit_off: u64, applied_off: u64, learner: bool) {
+    restart_conf(s, base, n, commit_off, applied_off, learner, false)
+}
+
+pub fn restart_conf(s: &mut Src, base: u64, n: usize, commit_off: u64, applied_off: u64, learner: bool, joint: bool) {
     use raft::Config;
     let mut st = VStore::new(base, if base == 0 { 0 } else { 1 });
     let mut prev = st.snap_term;
@@ -590,6 +594,13 @@ pub fn restart(s: &mut Src, base: u64, n: usize, commit_off: u64, applied_off: u
     cs.voters = vec![1, 2, 3];
     if learner {
         cs.learners = vec![4];
+    }
+    if joint {
+        // mid-change image: {1,2}&&{1,2,3}, learner 4, voter 3 staged to become a learner
+        cs.voters = vec![1, 2];
+        cs.voters_outgoing = vec![1, 2, 3];
+        cs.learners_next = vec![3];
+        cs.auto_leave = true;
     }
     st.cs = cs;
     let mut cfg = Config::new(ME);
@@ -617,6 +628,16 @@ pub fn restart(s: &mut Src, base: u64, n: usize, commit_off: u64, applied_off: u
     assert!(r.promotable() && r.msgs.is_empty());
     assert!(r.prs().conf().voters().contains(1) && r.prs().conf().voters().contains(3));
     assert!(r.prs().get(4).is_some() == learner);
+    {
+        use crate::c12::{mask, read};
+        let c1 = read(r.prs());
+        let lrn: &[u64] = if learner { &[4] } else { &[] };
+        if joint {
+            assert!(c1.inc == mask(&[1, 2]) && c1.out == mask(&[1, 2, 3]) && c1.lrn == mask(lrn) && c1.nxt == mask(&[3]) && c1.auto, "joint configuration not reproduced by restart");
+        } else {
+            assert!(c1.inc == mask(&[1, 2, 3]) && c1.out == 0 && c1.lrn == mask(lrn) && c1.nxt == 0, "configuration not reproduced by restart");
+        }
+    }
     let v = rn.verif_view();
     assert!(v.prev_hs == hs && v.commit_since_index == base + applied_off && v.records.is_empty());
     // has_ready exactly when committed entries are waiting to be applied
